@@ -232,7 +232,7 @@ impl BobState {
                             });
                         }
                     }
-                    let last_progress = self.progress.take().unwrap();
+                    let last_progress = self.progress.take().unwrap_or_default();
                     let next = sync
                         .sync_process_message(
                             namespace,
@@ -246,7 +246,7 @@ impl BobState {
                 }
                 (Message::Sync(msg), Some(namespace)) => {
                     trace!("recv process message");
-                    let last_progress = self.progress.take().unwrap();
+                    let last_progress = self.progress.take().unwrap_or_default();
                     sync.sync_process_message(*namespace, msg, *self.peer.as_bytes(), last_progress)
                         .await
                 }
@@ -287,7 +287,9 @@ impl BobState {
 
     /// Consume self and get the [`SyncOutcome`] for this connection.
     pub fn into_outcome(self) -> SyncOutcome {
-        self.progress.unwrap()
+        // `progress` is empty if processing a message failed locally; the outcome of a failed
+        // session must still be reportable.
+        self.progress.unwrap_or_default()
     }
 }
 
